@@ -39,6 +39,43 @@ fn real_main(args: &[String]) -> i32 {
             }
             0
         }
+        "corpus" => {
+            // vf corpus <bytes|tape> <dir> <n> <seed> [max_tape]: seed corpus for the libFuzzer targets
+            if args.len() < 6 {
+                eprintln!("usage: vf corpus <bytes|tape> <dir> <n> <seed> [max_tape]");
+                return 2;
+            }
+            let kind = args[2].as_str();
+            let dir = PathBuf::from(&args[3]);
+            let n: u64 = args[4].parse().unwrap_or(100);
+            let mut seed: u64 = args[5].parse::<u64>().unwrap_or(1).wrapping_mul(0x9E3779B97F4A7C15) | 1;
+            let max_tape: usize = args.get(6).and_then(|x| x.parse().ok()).unwrap_or(900);
+            let _ = std::fs::create_dir_all(&dir);
+            let mut next = move || {
+                seed ^= seed << 13;
+                seed ^= seed >> 7;
+                seed ^= seed << 17;
+                seed
+            };
+            for i in 0..n {
+                let len = (next() % (max_tape as u64 + 1)) as usize;
+                let tape: Vec<u8> = (0..len).map(|_| (next() >> 24) as u8).collect();
+                let data = if kind == "bytes" {
+                    let mut t = vcore::gen::Tape::new(&tape);
+                    if i % 3 == 0 {
+                        vcore::gen::encode_noncanon(&mut t).0
+                    } else {
+                        vcore::gen::gen_wire(&mut t)
+                    }
+                } else {
+                    tape
+                };
+                if data.len() <= 65536 {
+                    let _ = std::fs::write(dir.join(format!("seed-{:05}", i)), &data);
+                }
+            }
+            0
+        }
         "selftest" => match vcore::selftest::run() {
             Ok(n) => {
                 println!("selftest ok ({} checks)", n);
